@@ -32,6 +32,9 @@ type Engine struct {
 	leafCls  map[string][]*HeapClass
 	typeIDs  map[string]int64
 	typeByID map[int64]types.Type
+	// baseLocals: per function key, the named local variables (name, type) in declaration order when the baseline
+	// was written - used to follow pure renames of locals that contracts mention
+	baseLocals map[string]string
 	funcs    map[string]*ssa.Function
 	inlineLimit    int
 	inlineExternal map[string]bool
@@ -468,4 +471,59 @@ func (eng *Engine) implementsHeap(t types.Type) bool {
 		return types.Implements(types.NewPointer(t), eng.heapIface)
 	}
 	return false
+}
+
+
+// localSig lists the named local variables (allocs with a source name) of a function in block / instruction order.
+func localSig(fn *ssa.Function) []string {
+	var out []string
+	for _, pr := range fn.Params {
+		out = append(out, pr.Name()+"\x1f"+typeKey(pr.Type()))
+	}
+	for _, fv := range fn.FreeVars {
+		out = append(out, fv.Name()+"\x1f"+typeKey(fv.Type()))
+	}
+	for _, b := range fn.Blocks {
+		for _, in := range b.Instrs {
+			if a, ok := in.(*ssa.Alloc); ok && a.Comment != "" {
+				out = append(out, a.Comment+"\x1f"+typeKey(a.Type()))
+			}
+		}
+	}
+	return out
+}
+
+// renamedLocals: when the current function has the same locals as at baseline time, position by position and type by
+// type, but under other names, the old names are aliases of the new ones (a pure rename keeps a contract applicable).
+func (eng *Engine) renamedLocals(key string, fn *ssa.Function) map[string]string {
+	old, ok := eng.baseLocals[key]
+	if !ok || old == "" {
+		return nil
+	}
+	o := strings.Split(old, "|")
+	n := localSig(fn)
+	if len(o) != len(n) {
+		return nil
+	}
+	cur := map[string]bool{}
+	for _, e := range n {
+		cur[strings.SplitN(e, "\x1f", 2)[0]] = true
+	}
+	al := map[string]string{}
+	for i := range o {
+		oe, ne := strings.SplitN(o[i], "\x1f", 2), strings.SplitN(n[i], "\x1f", 2)
+		if len(oe) != 2 || len(ne) != 2 || oe[1] != ne[1] {
+			return nil
+		}
+		if oe[0] != ne[0] {
+			if cur[oe[0]] {
+				return nil // the old name is still in use for something else: not a pure rename
+			}
+			al[oe[0]] = ne[0]
+		}
+	}
+	if len(al) == 0 {
+		return nil
+	}
+	return al
 }
